@@ -26,9 +26,11 @@ func vpHostList(n, affix int) []string {
 
 //vp:property C03
 //vp:set hosts 2 3
-//vp:set affix 1 2
+//vp:set affix 1 1
 //vp:set user 2 3
-//vp:set host 4 6
+//vp:set host 4 5
+//vp:set maxpaths 200000 900000
+//vp:set budget 300 1500
 //vp:bounds host-selection mode in {any, signed, roundrobin, unsigned, other}; 0..hosts entries of the form prefix++[placeholder]++suffix with symbolic affixes of <= affix bytes; user name <= user bytes incl. empty; requested host <= host bytes (all byte values)
 //vp:reach allowed denied any signed
 func VP_C03_policy() {
